@@ -571,7 +571,10 @@ class UserSecurityModel(
         if not wrapped_vars:
             raise SnmpError("Invalid discovery response (no varbinds returned)")
         unknown_engine_id_var = wrapped_vars[0]
-        if not unknown_engine_id_var.value:
+        if not isinstance(unknown_engine_id_var.value, Integer):
+            # The usmStats values are counters. Discovery responses are not
+            # authenticated so anything else is refused without looking into
+            # it (converting a crafted, nested value can take very long).
             raise SnmpError("Discovery data did not contain valid data")
         unknown_engine_ids = unknown_engine_id_var.value.pythonize()
 
